@@ -79,6 +79,7 @@ class Namespace(typing.Generic[T]):
 class NamespaceGlobal(Namespace[symtable.SymbolTable]):
     use_itertools: bool = False
     use_importlib: bool = False
+    use_operator: bool = False
     use_preset_iter_wrapper: bool = False
 
     configs: Configs
